@@ -88,6 +88,14 @@ def scenarios():
                     d, c = render_callable(name, kind, decos, params, dbc)
                     return ("{}/{}".format(tag, deco_name), kind, dbc, name, d, c.replace("ARGS", args), stage, exc)
 
+                def mk_seq(tag, params, args_list, stage, exc):
+                    """Several calls of ONE callable in a row: the verdict of a call does not depend on the calls made before."""
+                    nonlocal n
+                    n += 1
+                    name = "f{}".format(n)
+                    d, c = render_callable(name, kind, decos, params, dbc)
+                    return ("{}/{}".format(tag, deco_name), kind, dbc, name, d, "(" + ", ".join(c.replace("ARGS", a) for a in args_list) + ")", stage, exc)
+
                 single = kind == "setter"  # a setter has exactly one parameter
                 # reserved parameter names: rejected when decorated
                 for reserved in ("_ARGS", "_KWARGS"):
@@ -126,6 +134,11 @@ def scenarios():
                     for reserved in ("result", "OLD"):
                         yield mk("kwarg-" + reserved, "x, **kwargs", "1, {}=2".format(reserved), "call" if has_post else "none",
                                  "TypeError" if has_post else None)
+                        # ... also when valid calls of the same callable went before
+                        yield mk_seq("second-call-kwarg-" + reserved, "x, **kwargs", ["1, other=2", "1", "1, {}=2".format(reserved)],
+                                     "call" if has_post else "none", "TypeError" if has_post else None)
+                    for reserved in ("_ARGS", "_KWARGS"):
+                        yield mk_seq("second-call-kwarg-" + reserved, "x, **kwargs", ["1, other=2", "1, {}=2".format(reserved)], "call", "TypeError")
                     # positive controls
                     yield mk("control-kwargs", "x, **kwargs", "1, other=2", "none", None)
                 yield mk("control-plain", "x", "1", "none", None)
@@ -262,7 +275,7 @@ def run(w) -> None:
             elif got_exc != exc:
                 w.violation("C19/wrong-exception/" + tag.split("/")[0], "misuse {} on {} raised {}: {} instead of {}".format(
                     tag, kind, got_exc, str(err)[:200], exc), case)
-            if name in bodies:
+            if name in bodies and not tag.startswith("second-call-"):
                 w.violation("C19/body-entered-before-rejection/" + tag.split("/")[0], "misuse {} on {}: the body ran although the call was rejected".format(
                     tag, kind), case)
             if len(w.samples) < 4:
